@@ -157,7 +157,14 @@ def value_is_zero(p, v):
     """is the symbolic value v known to be 0 on path p (literally, or by a branch the path took)?"""
     if v in ('0', 'EEAV_NO_ERROR'): return True
     if v is None: return False
-    return (p.passed(f'({v} != EEAV_NO_ERROR)', False) or p.passed(f'({v} == EEAV_NO_ERROR)', True) or p.passed(v, False))
+    return (p.passed(f'({v} != EEAV_NO_ERROR)', False) or p.passed(f'({v} == EEAV_NO_ERROR)', True) or p.passed(v, False)
+            or p.passed(f'({v} != 0)', False) or p.passed(f'({v} == 0)', True) or p.passed(f'(!{v})', True))
+
+
+def value_is_nonzero(p, v, before=None):
+    """the path has taken the non-zero side of a test of v against 0 / EEAV_NO_ERROR (any spelling)"""
+    return (p.passed(f'({v} != EEAV_NO_ERROR)', True, before) or p.passed(f'({v} == EEAV_NO_ERROR)', False, before) or p.passed(v, True, before)
+            or p.passed(f'({v} != 0)', True, before) or p.passed(f'({v} == 0)', False, before))
 
 
 def literal_family(p):
@@ -225,7 +232,14 @@ def tld_copy_idiom(tu, paths, start, end):
         # B2 case folding
         writes = [e for e in p.events[:i0] if e[0] == 'set' and e[1].startswith(buf + '[') and e[2] not in ('0', "'\\x00'")]
         if writes and not all(f'{start}[' in e[2] for e in writes): why.append(f'{buf}[] is not a copy of the label')
-        folding = all(("'A'" in e[2] and "'Z'" in e[2]) or 'tolower' in e[2] for e in writes) if writes else True
+        def stored_expr(e):
+            # the expression as written (a conditional store is one fold, even though its two outcomes are separate paths)
+            n = e[-1]
+            if isinstance(n, dict) and n.get('kind') == 'BinaryOperator' and n.get('opcode') == '=':
+                try: return cfgpaths.Engine(tu, 'is_tld').render(n['inner'][1], cfgpaths.Path())
+                except Exception: return e[2]
+            return e[2]
+        folding = all(("'A'" in stored_expr(e) and "'Z'" in stored_expr(e)) or 'tolower' in stored_expr(e) for e in writes) if writes else True
         for c in cs:
             if c[1] in ('strcmp', 'strncmp', 'memcmp') and not folding: why.append(f'{c[1]} on an unfolded copy: comparison is case-sensitive')
             if c[1] in ('strncmp', 'strncasecmp', 'memcmp') and not re.fullmatch(r'.+->length', c[2][2]): why.append(f'{c[1]} over {c[2][2]} bytes is not a whole-label comparison')
